@@ -52,13 +52,13 @@ def execute(ob):
     from yadism.esf import esf as esfmod
 
     nf, pto, sec = ob["nf"], ob["pto"], ob["sec"]
-    line = dict(oid=ob["oid"], n=ob["n"], sec=sec, nf=nf, pto=pto, ren=ob["ren"], fact=ob["fact"], intrinsic=ob["intrinsic"],
+    line = dict(oid=ob["oid"], n=ob["n"], sec=sec, nf=nf, pto=pto, evol=ob["evol"], ren=ob["ren"], fact=ob["fact"], intrinsic=ob["intrinsic"],
                 labels=ob["labels"], c=ob["c"], outcome="OK", observed=[], shape_ok=True, note="")
     pids = list(br.flavor_basis_pids)
     xg = [0.1, 0.3, 0.6, 1.0]
     ng = len(xg)
     o = cards.obs({"F2_light": [dict(x=0.3, Q2=Q2_NF[nf])]}, xgrid=xg, deg=1)
-    th = cards.theory(PTO=pto, PTODIS=pto, RenScaleVar=ob["ren"], FactScaleVar=ob["fact"], mc=1.5, mb=4.5, mt=170.0, Q0=1.0)
+    th = cards.theory(PTO=ob["evol"], PTODIS=pto, RenScaleVar=ob["ren"], FactScaleVar=ob["fact"], mc=1.5, mb=4.5, mt=170.0, Q0=1.0)
     r = yr.Runner(th, o)
     e = r.observables["F2_light"].elements[0]
     svm = r.configs.managers["sv_manager"]
@@ -189,7 +189,7 @@ def run(ctx):
                   coverage=False, min_states=200, min_depth=2)
     obls = ctx.tlc_emit("Emit_C05", common.cfg_text(dict(NI=2 if q else 6, NFS={4} if q else {3, 4, 5}, PTOS={1, 2, 3}), spec=None))
     for o in obls:
-        o["oid"] = common.oid_of("C05", {k: o[k] for k in ("n", "sec", "nf", "pto", "ren", "fact", "intrinsic")})
+        o["oid"] = common.oid_of("C05", {k: o[k] for k in ("n", "sec", "nf", "pto", "evol", "ren", "fact", "intrinsic")})
     lines = ctx.pmap(execute, obls, chunksize=4)
     for o, ln in zip(obls, lines):
         nz = any((e[1] > 0 or e[2] > 0) and (e[3][0] != 0 or e[4][0] != 0) for e in o["expect"])
@@ -205,7 +205,7 @@ def run(ctx):
         ("shape", lambda l: dict(l, shape_ok=False))])
     for oid, clause in bad.items():
         o, ln = by[oid]
-        key = f"inject:{ln['sec']}:nf{ln['nf']}:pto{ln['pto']}:ren{int(ln['ren'])}:fact{int(ln['fact'])}:intr{int(ln['intrinsic'])}:{clause}"
+        key = f"inject:{ln['sec']}:nf{ln['nf']}:pto{ln['pto']}{'' if ln['evol'] == ln['pto'] else '.evol' + str(ln['evol'])}:ren{int(ln['ren'])}:fact{int(ln['fact'])}:intr{int(ln['intrinsic'])}:{clause}"
         ctx.violation(key, f"sector {ln['sec']} nf={ln['nf']} pto={ln['pto']} RenScaleVar={ln['ren']} FactScaleVar={ln['fact']} "
                       f"intrinsic={ln['intrinsic']}: {clause} {ln['note']}", dict(kind="C05-inject", obligation=o, observed=ln))
     # (b) end-to-end switches on real runs
